@@ -35,6 +35,7 @@ type pfx struct {
 	v    int64
 	ex   bool
 	excl []uint64
+	ch   uint64 // structural hash of the condition decided (replay-divergence guard)
 }
 
 type decisionRec struct {
@@ -328,6 +329,9 @@ func (in *Interp) Decide(c *Term) bool {
 	pos := len(in.trace)
 	if pos < len(in.prefix) {
 		b := in.prefix[pos].v != 0
+		if ch := in.prefix[pos].ch; ch != 0 && ch != c.h {
+			panic(pathEnd{endUnsupported, "replay divergence: the re-executed path reached a different decision than the recorded one (engine nondeterminism)"})
+		}
 		lit := c
 		if !b {
 			lit = in.tt.Not(c)
@@ -408,19 +412,19 @@ func (in *Interp) Decide(c *Term) bool {
 	switch {
 	case feasT && feasF:
 		pp := in.tracePrefix(pos + 1)
-		pp[pos] = pfx{v: 0}
+		pp[pos] = pfx{v: 0, ch: c.h}
 		in.pending = append(in.pending, pendingPath{pp, mF})
-		in.trace = append(in.trace, decisionRec{pfx{v: 1}, c})
+		in.trace = append(in.trace, decisionRec{pfx{v: 1, ch: c.h}, c})
 		in.addPC(c)
 		in.model = mT
 		return true
 	case feasT:
-		in.trace = append(in.trace, decisionRec{pfx{v: 1}, c})
+		in.trace = append(in.trace, decisionRec{pfx{v: 1, ch: c.h}, c})
 		in.addPC(c)
 		in.model = mT
 		return true
 	case feasF:
-		in.trace = append(in.trace, decisionRec{pfx{v: 0}, notc})
+		in.trace = append(in.trace, decisionRec{pfx{v: 0, ch: c.h}, notc})
 		in.addPC(notc)
 		in.model = mF
 		return false
